@@ -124,6 +124,14 @@ func run(op string, args []string) string {
 				}
 			}
 			return hx(first)
+		case "u64":
+			return u64s(uint64(parseI(args[0])))
+		case "i64":
+			return i64s(int64(parseU(args[0])))
+		case "icx":
+			return u64s(codec.EncodeIntToCmpUint(parseI(args[0])))
+		case "cux":
+			return i64s(codec.DecodeCmpUintToInt(parseU(args[0])))
 		case "icu":
 			return u64s(codec.EncodeIntToCmpUint(parseI(args[0])))
 		case "cui":
@@ -309,7 +317,7 @@ func dirtyDst(pre []byte, spare int) []byte {
 		}
 	}
 	copy(b, pre)
-	return b[:len(pre):len(pre)+spare]
+	return b[: len(pre) : len(pre)+spare]
 }
 
 func propsInts(a, b int64, rest []byte) {
@@ -320,7 +328,9 @@ func propsInts(a, b int64, rest []byte) {
 	}()
 	// every encoder appends to its first argument: enc(prefix, v) = prefix ++ enc(nil, v), prefix untouched
 	pre := dirtyDst([]byte{0xDE, 0xAD, 0xBE}, 37) // reused destination: stale non-zero bytes in the spare capacity
-	okApp := func(got, want []byte) bool { return bytes.HasPrefix(got, []byte{0xDE, 0xAD, 0xBE}) && bytes.Equal(got[3:], want) }
+	okApp := func(got, want []byte) bool {
+		return bytes.HasPrefix(got, []byte{0xDE, 0xAD, 0xBE}) && bytes.Equal(got[3:], want)
+	}
 	prop("append_int", okApp(codec.EncodeInt(pre[:3], a), codec.EncodeInt(nil, a)) && okApp(codec.EncodeIntDesc(pre[:3], a), codec.EncodeIntDesc(nil, a)) &&
 		okApp(codec.EncodeVarint(pre[:3], a), codec.EncodeVarint(nil, a)) && okApp(codec.EncodeComparableVarint(pre[:3], a), codec.EncodeComparableVarint(nil, a)), i64s(a))
 	prop("append_uint", okApp(codec.EncodeUint(pre[:3], uint64(a)), codec.EncodeUint(nil, uint64(a))) && okApp(codec.EncodeUintDesc(pre[:3], uint64(a)), codec.EncodeUintDesc(nil, uint64(a))) &&
@@ -629,6 +639,10 @@ func main() {
 		rest := rb(rng.Intn(3))
 		emit("icu", i64s(a))
 		emit("cui", u64s(uint64(a)))
+		emit("icx", i64s(a)) // the xor form of the model against the same function
+		emit("cux", u64s(uint64(a)))
+		emit("u64", i64s(a)) // Go's int64 -> uint64 conversion against the model's reinterpretation
+		emit("i64", u64s(uint64(a)))
 		emit("ei", i64s(a))
 		emit("eid", i64s(a))
 		emit("ev", i64s(a))
@@ -637,7 +651,10 @@ func main() {
 		emit("eud", u64s(uint64(a)))
 		emit("euv", u64s(uint64(a)))
 		emit("ecu", u64s(uint64(a)))
-		for _, p := range []struct{ op string; enc []byte }{
+		for _, p := range []struct {
+			op  string
+			enc []byte
+		}{
 			{"di", codec.EncodeInt(nil, a)}, {"did", codec.EncodeIntDesc(nil, a)},
 			{"dv", codec.EncodeVarint(nil, a)}, {"dcv", codec.EncodeComparableVarint(nil, a)},
 			{"du", codec.EncodeUint(nil, uint64(a))}, {"dud", codec.EncodeUintDesc(nil, uint64(a))},
